@@ -27,6 +27,7 @@ var constReqs = []constReq{
 		"MaxDomainLabelLen", "MaxDomainNameLen", "MaxServiceLabelLen",
 		"arpaV4Suffix", "arpaV6Suffix", "arpaV4MaxIPLen", "arpaV6MaxIPLen", "arpaV4MaxLen", "arpaV6MaxLen",
 	}},
+	{"osutil", []string{"ExitCodeSuccess", "ExitCodeFailure"}}, // C18
 }
 
 // typeCheckDir parses the non-test Go files of dir and type-checks them leniently
